@@ -215,7 +215,23 @@ func H_C15_math() {
 		VAssert(ok, "math: result is a number")
 		return float64(v)
 	}
-	switch VChoice(11) {
+	switch VChoice(13) {
+	case 11:
+		// modf of an infinity: the integral part is that infinity and the fraction a zero of the same sign
+		// (C99 7.12.6.12), so that the parts still recompose
+		inf := mathInfRef(1)
+		if VChoice(2) == 1 {
+			inf = mathInfRef(-1)
+		}
+		out, err := callLib(L, "math", "modf", 2, LNumber(inf))
+		VAssert(err == nil, "modf: no error")
+		VAssert(num(out, 0) == inf && num(out, 1) == 0 && VSameF(num(out, 0)+num(out, 1), inf), "modf: an infinity splits into itself and a zero")
+	case 12:
+		// deg and rad by lmathlib.c: x / (pi/180) and x * (pi/180) (one rounding each, no intermediate overflow)
+		out, err := callLib(L, "math", "deg", 1, LNumber(x))
+		VAssert(err == nil && VSameF(num(out, 0), x/mathRadPerDeg()), "deg: x / (pi/180)")
+		out, err = callLib(L, "math", "rad", 1, LNumber(x))
+		VAssert(err == nil && VSameF(num(out, 0), x*mathRadPerDeg()), "rad: x * (pi/180)")
 	case 9:
 		// frexp parts recompose exactly through ldexp, for every finite x (the library's own bit-level
 		// definitions of Frexp and Ldexp are executed symbolically)
